@@ -23,7 +23,8 @@ LMAX = {"quick": 3, "thorough": 4}
 RULE = ("EXHAUSTIVE sub-space: all code sequences over {-1,0,1,2} x all value sequences over a 3-letter alphabet containing "
         "null (2 letters for bool), of every length 1..L (L=3 quick, 4 thorough), for each of 9 kernels and 5 dtype classes "
         "(float, int, bool, datetime, timedelta), under every n_threads in {1,2,3,4,L+1} and every composition of the rows "
-        "into 2..4 consecutive blocks given as a chunked value array, plus every boolean mask, every in-range slice and "
+        "into 2..4 consecutive blocks given as a chunked value array (each composition also with two masks drawn from the mask set "
+        "below, one of them positional with >= 2 entries), plus every boolean mask, every in-range slice and "
         "every position sequence of length <= 2 (incl. negative and repeated) for lengths <= 2 (quick) / <= 3 (thorough) and 6 "
         "of them per call one length above; quick drives n_threads {2, L+1} at L=3. SAMPLED: lengths 5..64 with all 19 dtypes, "
         "random splits and masks, and lengths 5-6 over reduced alphabets. One evaluation = one kernel call compared with "
@@ -50,7 +51,7 @@ def plan(tier):
 
 
 def required_counters(tier):
-    return ["kernel_calls", "merge_law_calls", "mask_law_calls", "chunked_value_calls", "group_empty_in_some_block", "group_allnull_in_some_block",
+    return ["kernel_calls", "merge_law_calls", "mask_law_calls", "chunked_value_calls", "chunked_value_masked_calls", "chunked_value_unordered_position_calls", "group_empty_in_some_block", "group_allnull_in_some_block",
             "negative_code_rows", "return_count_checked"]
 
 
@@ -218,6 +219,9 @@ def check(case, ctx):
             if np.dtype(dtype).kind != "b" and not has_arrow_null(vals) and kernel != "size":
                 for cuts in compositions(L):
                     subs.append(dict(mode="chunks", cuts=cuts))
+                chunk_cuts = list(compositions(L))
+            else:
+                chunk_cuts = []
             for m in masks:
                 subs.append(dict(mode="mask", mask=m))
             h = zlib.crc32(repr((codes, vals, kernel)).encode())
@@ -226,12 +230,22 @@ def check(case, ctx):
             pool = masks or sampled_masks
             if L >= 2 and pool:
                 subs.append(dict(mode="mask", mask=pool[h % len(pool)], n_threads=2))
+            # chunked values together with a mask: one mask of any kind and one positional mask (repeated / descending /
+            # negative positions included) per composition of the rows into blocks
+            pos_pool = [m for m in pool if m["kind"] == "pos" and len(m["vals"]) >= 2]
+            for j, cuts in enumerate(chunk_cuts if pool else []):
+                subs.append(dict(mode="chunks", cuts=cuts, mask=pool[(h + 104729 * (j + 1)) % len(pool)]))
+                if pos_pool:
+                    subs.append(dict(mode="chunks", cuts=cuts, mask=pos_pool[(h + 15485863 * (j + 1)) % len(pos_pool)]))
             for s in subs:
                 sub = dict(s, kernel=kernel, dtype=dtype, codes=codes, vals=vals)
                 ctx.counters["kernel_calls"] += 1
                 if s["mode"] in ("threads", "chunks"):
                     ctx.counters["merge_law_calls"] += 1
-                    if s["mode"] == "chunks":
+                    if s["mode"] == "chunks" and s.get("mask"):
+                        ctx.counters["chunked_value_masked_calls"] += 1
+                        ctx.counters["chunked_value_unordered_position_calls"] += int(s["mask"]["kind"] == "pos" and sorted(set(s["mask"]["vals"])) != s["mask"]["vals"])
+                    elif s["mode"] == "chunks":
                         ctx.counters["chunked_value_calls"] += 1
                         b = [0, *s["cuts"], L]
                         blocks = [(x, y) for x, y in zip(b, b[1:])]
@@ -298,6 +312,10 @@ def random_sub(rng, dtypes=None):
         sub.update(mode="threads", n_threads=int(rng.integers(2, 9)), return_count=bool(rng.random() < 0.3))
     elif r < 0.7 and dt.kind not in "b" and not (dt.kind in "mM" and any(v is None for v in vals)) and kernel != "size":
         sub.update(mode="chunks", cuts=gen.random_splits(rng, L, 5) or [1])
+        if rng.random() < 0.5:
+            m = gen.gen_mask(rng, L, kind=gen.pick(rng, ["bool", "slice", "pos", "pos"]))
+            if m is not None:
+                sub["mask"] = m
     else:
         sub.update(mode="mask", mask=gen.gen_mask(rng, L, kind=gen.pick(rng, ["bool", "slice", "pos"])), n_threads=gen.pick(rng, [1, 1, 2, 3]))
         if sub["mask"] is None:
